@@ -411,7 +411,7 @@ def presence_stream(res, tier, seed):
     snippet, fallback = out[0].split(" ")[0], out[1].split(" ")[0]
     if snippet == fallback or "PANIC" in (snippet, fallback):
         raise vlib.CheckError("presence stream: the one-step baselines are not a snippet and a fallback: %s / %s" % (snippet[:60], fallback[:60]))
-    cases, impl, want, problems = [], [], [], {}
+    cases, impl, problems = [], [], {}
     for h, line in zip(hists, out):
         got = line.split(" ") if line else []
         states, present = [], False
@@ -441,8 +441,10 @@ def presence_stream(res, tier, seed):
                 seen_text = True
         cases.append(h)
         impl.append(",".join("S" if g == snippet else "F" if g == fallback else "?" for g in got))
-        want.append(impl[-1] if why is None else ",".join("S" if p else "F/S" for p in states))
         problems[h] = why
+    # the same histories through the extracted model (Model/SharedT.v reports_from: theorems c17_report_while_readable_ignores_the_history
+    # and c17_report_while_unreadable are about it)
+    want = vlib.run_model(["presence\t" + h for h in cases])
     return vlib.correspond(res, "source-file-presence-histories", cases, impl, want, lambda c: c,
                            lambda c, a: "D" in c and "W" in c, lambda c, a: problems[c], samples=2)
 
